@@ -186,12 +186,11 @@ func VxC04_OneSamplePaired() {
 //vx:mode R
 //vx:solver z3
 //vx:stub mathx.BetaInc = vxBetaInc
-//vx:bound sample sizes 0..3; summary statistics arbitrary
+//vx:bound sample sizes 0..3; variances zero or positive (case split), means arbitrary reals
 func VxC04_Errors() {
 	n1, n2 := float64(vx.Choose("n1", 0, 3)), float64(vx.Choose("n2", 0, 3))
-	x1 := vxTS{n1, vx.Float("m1"), vx.Float("v1")}
-	x2 := vxTS{n2, vx.Float("m2"), vx.Float("v2")}
-	vx.Assume(vx.And(x1.v >= 0, x2.v >= 0))
+	x1 := vxTS{n1, vx.Float("m1"), 2 * float64(vx.Choose("v1", 0, 1))}
+	x2 := vxTS{n2, vx.Float("m2"), 2 * float64(vx.Choose("v2", 0, 1))}
 	_, e := TwoSampleTTest(x1, x2, LocationDiffers)
 	if n1 == 0 || n2 == 0 {
 		vx.Assert(e == ErrSampleSize, "pooled test: ErrSampleSize for an empty sample")
